@@ -27,7 +27,7 @@ module.exports.run_case = async function (c, repo) {
     try {
         if (c.writer === 'table') {
             const out = [];
-            await rbql.query_table(c.qjs, A, out, [], B);
+            await rbql.query_table(c.qjs, A, out, [], B, c.hdrA || null, c.hdrB || null, []);
             handed = out.slice();
             for (const r of out) {
                 for (let i = 0; i < r.length; i++) r[i] = 'MUT';
